@@ -94,7 +94,10 @@ class Run:
         with Lock("gobuild"):
             rc, out = sh(["go", "build", "-o", ex, "."], cwd=os.path.join(VERIF, "extract"))
         if rc != 0:
+            # the translator is half of the tie to the source: without it NV/Gen would be stale
             self.notes.append("extractor build failed: " + out[-400:])
+            self.proof_broken = True
+            self.extract_failed = True
             return False
         rc, out = sh([ex, "-repo", REPO, "-out", os.path.join(LEAN, "NV", "Gen"), "-for", self.pid,
                       "-declared", os.path.join(VERIF, "extract", "declared_fresh.json")], cwd=REPO)
@@ -104,6 +107,8 @@ class Run:
                 self.notes.append("translator: " + line)
         if rc != 0:
             self.notes.append("extractor failed: " + out[-400:])
+            self.proof_broken = True
+            self.extract_failed = True
             return False
         return True
 
